@@ -4,7 +4,7 @@ from __future__ import annotations
 import ast
 
 from sa.cfg import build_cfg, node_exprs
-from sa.formula import Policy, extract_function, Extractor, Unsupported, show, Dag
+from sa.formula import Policy, extract_function, Extractor, Unsupported, show, Dag, inline_calls, project_resolver
 from sa.guards import guard_states, common_literals
 from sa.intervals import interval, within
 from sa.loader import AnalysisError, norm_text
@@ -130,6 +130,78 @@ def coeffs(expr, basis):
     return out
 
 
+def linear_stages(t):
+    """The 3x3 linear stages of a closed form, found by shape: sums of three (coefficient x atom) terms over a common
+    set of atoms. Returns [stage1 rows, stage2 rows]: stage 2's atoms contain stage 1's rows; its columns follow their order."""
+    forms = []
+    seen = set()
+
+    def parse(n):
+        if not (n[0] == "op" and n[1] == "+" and len(n[2]) == 3):
+            return None
+        row = []
+        for x in n[2]:
+            sign = 1.0
+            if x[0] == "neg":
+                sign, x = -1.0, x[1]
+            c, atom = 1.0, x
+            if x[0] == "op" and x[1] == "*":
+                nums = [y for y in x[2] if y[0] == "num"]
+                rest = [y for y in x[2] if y[0] != "num"]
+                if not rest:
+                    return None
+                for y in nums:
+                    c *= float(y[1])
+                atom = rest[0] if len(rest) == 1 else ("op", "*", tuple(rest))
+            elif x[0] == "num":
+                return None
+            row.append((atom, sign * c))
+        return row
+
+    def walk(n):
+        if not isinstance(n, tuple) or id(n) in seen:
+            return
+        seen.add(id(n))
+        if n and isinstance(n[0], str):
+            r = parse(n)
+            if r is not None and not any(f[0] == n for f in forms):
+                forms.append((n, r))
+        for x in n:
+            if isinstance(x, tuple):
+                walk(x)
+    walk(t)
+
+    def inside(big, small):
+        st = [big]
+        mem = set()
+        while st:
+            x = st.pop()
+            if not isinstance(x, tuple) or id(x) in mem:
+                continue
+            mem.add(id(x))
+            if x is small or (x and x[0] == small[0] and x == small):
+                return True
+            st.extend(y for y in x if isinstance(y, tuple))
+        return False
+    stage1 = [f for f in forms if not any(inside(a, g[0]) for a, _ in f[1] for g in forms if g is not f)]
+    stage2 = [f for f in forms if f not in stage1]
+    if len(stage1) != 3 or len(stage2) != 3:
+        raise Unsupported(f"expected two 3x3 linear stages, found {len(stage1)} + {len(stage2)} linear forms")
+    basis1 = [a for a, _ in stage1[0][1]]
+    M_a = [[dict((repr(a), c) for a, c in f[1]).get(repr(b), None) for b in basis1] for f in stage1]
+    # stage 2's column j is the atom that contains stage 1's row j
+    M_b = []
+    for f in stage2:
+        row = []
+        for g in stage1:
+            hit = [c for a, c in f[1] if inside(a, g[0])]
+            row.append(hit[0] if len(hit) == 1 else None)
+        M_b.append(row)
+    if any(v is None for r in M_a + M_b for v in r):
+        raise Unsupported("the linear forms do not share one basis")
+    return M_a, M_b
+
+
 def run(project, chk):
     chk.rule("K1", "rgb_to_oklch: sRGB -> linear -> LMS (matrix M1) -> cube root (sign-preserving) -> OKLab (matrix M2) -> chroma sqrt(a^2+b^2), hue atan2 in degrees [0,360), L clamped to [0,1]")
     chk.rule("K2", "oklch_to_rgb: polar -> OKLab (H*pi/180, cos/sin) -> LMS' (M2^-1) -> cube -> linear sRGB (M1^-1) -> clamp [0,1] -> gamma -> round -> clamp [0,255]")
@@ -145,9 +217,13 @@ def run(project, chk):
     audit(project, chk, "K5", f"{V}.is_valid_rgb", REF, "valid_rgb", Policy(), "the validity range of an 8-bit triple (0..255 inclusive)", inline=False)
 
     # ---------------------------------------------------------------- K4 from the code's own literals
+    permuted = False
     try:
-        f_ex, f_env, _ = extract_function(project, project.func(f"{V}.rgb_to_oklch"))
-        i_ex, i_env, _ = extract_function(project, project.func(f"{V}.oklch_to_rgb"))
+        f_ex, f_env, f_ret = extract_function(project, project.func(f"{V}.rgb_to_oklch"))
+        i_ex, i_env, i_ret = extract_function(project, project.func(f"{V}.oklch_to_rgb"))
+    except Unsupported as e:
+        raise AnalysisError(f"ANALYSIS-INCONCLUSIVE conversions: {e}")
+    try:
         fb = [f_env["r_linear"], f_env["g_linear"], f_env["b_linear"]]
         M1 = [coeffs(f_env[n], fb) for n in ("l_cone", "m_cone", "s_cone")]
         # M2: rows of L, a, b over (l', m', s'): take the unclamped L
@@ -156,7 +232,7 @@ def run(project, chk):
         while Lexpr[0] == "op" and Lexpr[1] in ("max", "min"):
             Lexpr = [x for x in Lexpr[2] if x[0] != "num"][0]
         M2 = [coeffs(Lexpr, lb), coeffs(f_env["a"], lb), coeffs(f_env["b"], lb)]
-        ib = [("var", "L") if False else i_env["L"], i_env["a"], i_env["b"]]
+        ib = [i_env["L"], i_env["a"], i_env["b"]]
         M2i = [coeffs(i_env[n], ib) for n in ("l_prime", "m_prime", "s_prime")]
         cb = [i_env["l_cone"], i_env["m_cone"], i_env["s_cone"]]
 
@@ -166,11 +242,27 @@ def run(project, chk):
             return e
         # r_linear etc. are reassigned (clamped): recover the linear forms from the clamp's operand
         M1i = [coeffs(unclamp(i_env[n]), cb) for n in ("r_linear", "g_linear", "b_linear")]
-    except (Unsupported, KeyError) as e:
-        raise AnalysisError(f"ANALYSIS-INCONCLUSIVE conversions: cannot read the matrices as linear forms over the named intermediates ({e})")
+    except (Unsupported, KeyError):
+        # the intermediates are not named as at the pinned tree: read the two 3x3 stages of each closed form by shape
+        # (row / column order is then only known up to a permutation, which K1 / K2 pin down by alignment)
+        try:
+            res = project_resolver(project)
+            M1, M2 = linear_stages(inline_calls(f_ret, res))
+            M2i, M1i = linear_stages(inline_calls(i_ret, res))
+            permuted = True
+        except Unsupported as e:
+            raise AnalysisError(f"ANALYSIS-INCONCLUSIVE conversions: cannot read the matrices as linear forms ({e})")
     fi = project.func(f"{V}.oklch_to_rgb")
     for name, A, B in (("M1 (linear sRGB -> LMS) x M1^-1", M1, M1i), ("M2 (LMS' -> OKLab) x M2^-1", M2, M2i)):
         P = matmul(A, B)
+        if permuted:
+            # a permutation matrix: every entry is 0 or 1 (to 1e-6) and every row and column holds exactly one 1
+            near = [[1 if abs(P[i][j] - 1.0) < 1e-6 else 0 if abs(P[i][j]) < 1e-6 else None for j in range(3)] for i in range(3)]
+            okp = all(v is not None for r in near for v in r) and all(sum(r) == 1 for r in near) and all(sum(near[i][j] for i in range(3)) == 1 for j in range(3))
+            err = max(min(abs(P[i][j]), abs(P[i][j] - 1.0)) for i in range(3) for j in range(3))
+            chk.check(okp, "K4", fi.short, name, project.loc(fi.module, fi.node), f"{name} = I up to the order of rows (max deviation {err:.2e})",
+                      how="product of the 3x3 linear stages found by shape in rgb_to_oklch and oklch_to_rgb", message=f"{name} deviates from a permutation of the identity by {err:.3e}: a coefficient of the forward or inverse matrix is wrong")
+            continue
         err = max(abs(P[i][j] - (1.0 if i == j else 0.0)) for i in range(3) for j in range(3))
         chk.check(err < 1e-6, "K4", fi.short, name, project.loc(fi.module, fi.node), f"{name} = I to 1e-6 (max deviation {err:.2e})",
                   how="product of the 3x3 literals found in rgb_to_oklch and oklch_to_rgb", message=f"{name} deviates from the identity by {err:.3e}: a coefficient of the forward or inverse matrix is wrong")
